@@ -2,7 +2,7 @@
    implementation wrote for the observed model state, and the model's decoder applied to the
    implementation's bytes must give back that state. *)
 From Coq Require Import List NArith ZArith Arith Bool.
-From Dimod Require Import Base.Util Gen.Gen_Codec Model.Codec.
+From Dimod Require Import Base.Util Gen.Gen_Codec Model.Codec Model.Rebuild.
 Import ListNotations.
 
 Definition N_eqb := N.eqb.
@@ -55,16 +55,29 @@ Inductive case :=
 | CQm (f : qmfile) (impl : bytes)
 | CExpr (f : exprfile) (impl : bytes)
 | CVarinfo (vi : list (N * (bytes * bytes))) (impl : bytes)   (* the `varinfo` member of a CQM zip *)
-| CLabels (l : list label) (json : bytes).     (* json.dumps(serializable labels) as written into a zip member *)
+| CLabels (l : list label) (json : bytes)
+  (* the full adjacency observed on the LOADED model (iter_neighborhood order) and the lower triangles in the file *)
+| CAdj (full : list (list (N * bytes))) (low : list (list (N * bytes))).     (* json.dumps(serializable labels) as written into a zip member *)
 
 Definition res_is {A : Type} (eqb : A -> A -> bool) (r : res A) (x : A) : bool :=
   match r with Ok y => eqb y x | Err => false end.
 
 Notation "x |> f" := (f x) (at level 60, only parsing).
 
+Definition nb_nat (nb : list (N * bytes)) : list (nat * bytes) := map (fun e => (N.to_nat (fst e), snd e)) nb.
+Definition nbn_eqb (a b : nat * bytes) : bool := Nat.eqb (fst a) (fst b) && bytes_eqb (snd a) (snd b).
+Definition adj_eqb := list_eqb (list_eqb nbn_eqb).
+
+(* the loader's add_quadratic calls replayed on what the file holds give the observed adjacency;
+   `+=` on an existing entry never happens on a well-formed file: it is made to poison the result *)
+Definition bqm_rebuild_ok (adj : list (list (N * bytes))) : bool :=
+  let a := map nb_nat adj in
+  adj_eqb (rebuild_upsert (fun _ _ => [999%N]) (fun b => b) (lowers a)) a.
+
 Definition check (c : case) : bool :=
   match c with
   | CBqm f bs => bytes_eqb (bqm_encode f) bs && res_is bqmfile_eqb (run bqm_decode bs) f
+                 && bqm_rebuild_ok (bf_adj f)
   | CQm f bs => bytes_eqb (qm_encode f) bs && res_is qmfile_eqb (run qm_decode bs) f
   | CExpr f bs => bytes_eqb (expr_encode f) bs && res_is exprfile_eqb (run expr_decode bs) f
   | CVarinfo vi bs =>
@@ -72,6 +85,9 @@ Definition check (c : case) : bool :=
       && res_is (list_eqb vinfo_eqb)
            (run (dec_tsection MAGIC_VTYP NLEN_VTYP (pd_chunks (length vi) 17)) bs
             |> fun r => match r with Ok cs => Ok (map (dec_vinfo 8) cs) | Err => Err end) vi
+  | CAdj full low =>
+      let a := map nb_nat full in
+      adj_eqb (lowers a) (map nb_nat low) && adj_eqb (rebuild (map nb_nat low)) a
   | CLabels l js => bytes_eqb (pr_labels l) js
                     && match labels_dec js with Some l' => list_eqb label_eqb l' l | None => false end
   end.
